@@ -5,7 +5,9 @@ Model:      specs/GenSiblingsP.tla (P: the file is a function of <type, what it 
             LimitEmptyLines counter, Jinja compile-time folding and import-module cache, the lru_cache'd dependency builder
             with the key PyDSDL equality really gives it, the TokenEncoder.strop memo and the path tokens stropped for every
             type of a run while the namespace tree is built, state a template filter keeps between files (e.g. the cached
-            TextWrapper objects behind the C++ block_comment filter); actions StartRun/Compile/Render/Post), TLC proves I => P for the
+            TextWrapper objects behind the C++ block_comment filter), a first-come registry of names DERIVED from a type (macro /
+            snake casing, separators dropped, truncation, stropping: derivations under which two distinct types of one run collide)
+            that hands out ordinals; actions StartRun/Compile/Render/Post), TLC proves I => P for the
             repaired design and refutes each "as found" mechanism (negative controls).
 spec->code: (a) every violating history TLC finds in the negative controls is a predicted-defect stimulus, (b) every
             complete history of the repaired model (all subsets x orders x reuse modes) comes with the expected abstract
@@ -14,7 +16,10 @@ spec->code: (a) every violating history TLC finds in the negative controls is a 
 code->spec: random DSDL namespaces (nested namespaces, several versions of one type with different dependencies, unions,
             services, twins for size-preserving edits, fields/constants spelled exactly like a sibling's namespace directory
             or file stem: C reserved-pattern words, target keywords, plain words; header / field / constant documentation that
-            is short, longer than the wrap width, has indented list lines, blank comment lines, escaped characters) through the built-in c/cpp/py/html templates and mirror templates:
+            is short, longer than the wrap width, has indented list lines, blank comment lines, escaped characters; siblings that
+            do not refer to each other and whose names collide under a derivation: FooBar / Foo_Bar, foo_bar.Baz / foo.bar_Baz,
+            Ver.1.10 / Ver.11.0 / Ver1.1.0, a long common prefix, keyword / _keyword / keyword_, Svc / Svc_Request) through the
+            built-in c/cpp/py/html templates and mirror templates:
             whole namespace / dependency-closed subsets / permuted order / PYTHONHASHSEED / reused LanguageContext /
             reused generator object with other generate_all flags / edited definitions; every written file is logged by a
             harness FilePostProcessor and judged by specs/GenSiblingsTrace.tla (clause sib.digest).
@@ -45,7 +50,25 @@ def _sha(b):
 # Part 1 - runs inside the worker / scenario child (imports nunavut lazily; no dependency on vf.core)
 # =====================================================================================================================
 
-def mirror_files(shape, lang, docs=False):
+# names a template derives from the type it is rendered for (abstract line "G"): the target's own name filters
+DERIVED_EXPR = {
+    "c": [("full_reference_name", "T | full_reference_name"), ("short_reference_name", "T | short_reference_name"), ("macrofy", "T.full_name | macrofy"),
+          ("to_snake_case", "T.full_name | to_snake_case"), ("to_screaming_snake_case", "T.full_name | to_screaming_snake_case")],
+    "cpp": [("full_reference_name", "T | full_reference_name"), ("short_reference_name", "T | short_reference_name"), ("full_macro_name", "T | full_macro_name")],
+    "py": [("full_reference_name", "T | full_reference_name"), ("short_reference_name", "T | short_reference_name")],
+    "html": [("tag_id", "T | tag_id"), ("url_from_type", "T | url_from_type")],
+}
+
+
+def derived_filters(lang):
+    """the name filters of DERIVED_EXPR the target language of this tree really has"""
+    import importlib
+
+    mod = importlib.import_module("nunavut.lang.%s" % lang)
+    return [n for n, _e in DERIVED_EXPR[lang] if callable(getattr(mod, "filter_" + n, None))]
+
+
+def mirror_files(shape, lang, docs=False, have=None):
     """The user template set whose output lines map 1:1 to the abstract lines of GenSiblings.tla."""
     uf = "make_unique" if lang == "html" else "to_template_unique_name"
     s = "{{ c10probe() }}" + "\n" * shape["lead"]
@@ -62,6 +85,11 @@ def mirror_files(shape, lang, docs=False):
         s += '{% from "helper.j2" import mac, modlevel %}M {{ modlevel }} {{ mac() }}\n'
     if shape.get("nam") and lang in ("c", "cpp", "py"):
         s += "{% for a in T.attributes if a.name %}N {{ a | id }}\n{% endfor %}"
+    if shape.get("der"):
+        s += "G path {{ T | type_to_include_path }}\n"
+        for n, e in DERIVED_EXPR[lang]:
+            if have is None or n in have:
+                s += "G %s {{ %s }}\n" % (n, e)
     if shape["inc"] and lang in ("c", "cpp"):
         s += "{% for i in T | includes %}I {{ i }}\n{% endfor %}"
     s += "\n" * shape["trail"]
@@ -99,6 +127,8 @@ def mirror_tokens(text, names):
             toks.append(["M"] + [int(x) for x in _RE_UV.findall(ln)])
         elif ln.startswith("N "):
             toks.append(["N", ln[2:]])
+        elif ln.startswith("G "):
+            toks.append(["G", ln[2:]])
         elif ln.startswith("I "):
             p = ln[2:].strip().strip('<>"')
             stem = p.rsplit(".", 1)[0]
@@ -121,10 +151,19 @@ _RE_COMMENT = re.compile(r"^\s*(//|/\*|\*(?!\w)|#(?!\s*(include|define|undef|if|
 LINE_CLASSES = {"blank": "blank-lines", "include": "include-list", "pickle": "pickled-model", "comment": "doc-comments"}
 
 
-def norm_hashes(text):
+_RE_IDENT = re.compile(r"[A-Za-z_][A-Za-z0-9_]*")
+
+
+def name_fold(x):
+    return re.sub(r"[^a-z0-9]", "", x.lower())
+
+
+def norm_hashes(text, name=None):
     """digests per class of line (blank lines with their position among the code lines, include/import lines, lines of the py
     target's pickled model, comment lines) and of the remaining lines under the substitutions unique names / underscores (the
-    stropping affixes); used only to CLASSIFY a digest conflict (which kind of line differs -> signature), never to judge"""
+    stropping affixes) / identifiers derived from the type's own name `name` (folded: case and separators dropped; a prefix is
+    enough, so truncated derivations count); used only to CLASSIFY a digest conflict (which kind of line differs -> signature),
+    never to judge"""
     cls = {k: [] for k in LINE_CLASSES}
     other = []
     for l in text.split("\n"):
@@ -144,6 +183,9 @@ def norm_hashes(text):
     res["o1"] = _sha("\n".join(uq))[:12]
     res["o2"] = _sha("\n".join(l.replace("_", "") for l in other))[:12]
     res["o3"] = _sha("\n".join(l.replace("_", "") for l in uq))[:12]
+    key = name_fold(name or "")[:8]
+    if key:
+        res["o4"] = _sha("\n".join(_RE_IDENT.sub(lambda m: "_N_" if key in name_fold(m.group(0)) else m.group(0), l) for l in other))[:12]
     return res
 
 
@@ -338,7 +380,7 @@ def run_scenario(sc, work, seed):
                 tdir = work / ("tpl_%s" % lang)
                 if not tdir.exists():
                     tdir.mkdir()
-                    for fn, txt in mirror_files(tpl["shape"], lang, bool(tpl.get("docs"))).items():
+                    for fn, txt in mirror_files(tpl["shape"], lang, bool(tpl.get("docs")), derived_filters(lang)).items():
                         (tdir / fn).write_text(txt)
 
                 def probe(_st=st):
@@ -391,7 +433,7 @@ def run_scenario(sc, work, seed):
                         "step": 1 if obs and len(flags) <= 4000 else 0, "raw": rle(flags) if obs and len(flags) <= 4000 else [],
                         "kept": kept if obs else 0},
                 "uq": {"obs": 0, "ub": 0, "un": 0, "exp": 0},
-                "nh": norm_hashes(text),
+                "nh": norm_hashes(text, t.short_name),
             }
             if os.environ.get("C10_DEBUG_TEXT"):
                 ev["text"] = text  # diagnosis aid: never set by the check itself
@@ -504,11 +546,42 @@ def with_docs(text, header, attr):
 MODEL_WORDS = {1: ["strobe", "total", "island", "memory", "atomic_x", "isle"], 2: ["plain", "speed"], 3: ["plain"]}
 
 
-def model_defsets(ntypes=4, stem=None, docs=False):
+# DISTINCT valid DSDL names ("<name relative to the root namespace>.<major>.<minor>") that collide under some derivation of a name:
+# macro / snake casing with underscore insertion, repeated underscores collapsed, dots to underscores in full names, separators
+# dropped (name + version digits), truncation (long common prefix), stropping affixes, service request / response suffixes.
+# (PyDSDL itself refuses nothing here; names that differ in letter case only are left out on purpose.)
+_LONGNAME = "LongCommonPrefix" * 3
+CONFUSABLE = [
+    ["FooBar.1.0", "Foo_Bar.1.0", "Foo__Bar.1.0"],
+    ["foo_bar.Baz.1.0", "foo.bar_Baz.1.0"],
+    ["a_b.C.1.0", "a.b_C.1.0"],
+    ["Ver.1.10", "Ver.11.0", "Ver1.1.0"],
+    [_LONGNAME + "EndingA.1.0", _LONGNAME + "EndingB.1.0"],
+    ["double.1.0", "_double.1.0", "double_.1.0"],
+    ["class.1.0", "class_.1.0", "_class.1.0"],
+    ["x.1.0", "_x.1.0", "x_.1.0"],
+    ["x_y.1.0", "x__y.1.0"],
+]
+CONF_PAIRS = [(g[0], g[1]) for g in CONFUSABLE] + [("Ver.1.10", "Ver1.1.0"), ("double.1.0", "double_.1.0"), ("class.1.0", "_class.1.0")]
+
+
+def conf_path(n):
+    """"foo_bar.Baz.1.0" -> "foo_bar/Baz.1.0" (DSDL file below the root namespace directory, without the extension)"""
+    parts = n.split(".")
+    return "/".join(parts[:-2]) + "." + ".".join(parts[-2:])
+
+
+def conf_stem(n):
+    """"foo_bar.Baz.1.0" -> "foo_bar/Baz_1_0" (stem of the generated file below the root namespace directory)"""
+    parts = n.split(".")
+    return "/".join(parts[:-2]) + "_" + "_".join(parts[-2:])
+
+
+def model_defsets(ntypes=4, stem=None, docs=False, pair=None):
     """DSDL for the definition sets of GenSiblings.tla: A1/A2 are twins (same size), A3 refers to A1 (set 1), A2 (set 2) or both
     (set 3) - in sets 1 and 2 it keeps name, version and bit-length set -, A4 refers to A3.  With `stem` the second type is named
     <stem> (its file stem / path token is <stem>_1_0) and the first type - which does not refer to it - has a field of exactly
-    that spelling."""
+    that spelling.  With `pair` the twins carry two names that collide under a name derivation (CONF_PAIRS)."""
     res = []
     for d in (1, 2, 3):
         f = {"mr/A1.1.0.dsdl": "bool x\ntruncated uint12[<=3] xs\n@sealed\n", "mr/A2.1.0.dsdl": "bool y\ntruncated uint12[<=3] ys\n@sealed\n"}
@@ -519,6 +592,9 @@ def model_defsets(ntypes=4, stem=None, docs=False):
         if stem:
             f = {k.replace("A2.1.0", stem + ".1.0"): v.replace("mr.A2.1.0", "mr.%s.1.0" % stem) for k, v in f.items()}
             f["mr/A1.1.0.dsdl"] = f["mr/A1.1.0.dsdl"].replace("@sealed", "uint8 %s_1_0\n@sealed" % stem)
+        elif pair:
+            for old, new in (("A1.1.0", pair[0]), ("A2.1.0", pair[1])):
+                f = {("mr/%s.dsdl" % conf_path(new) if k == "mr/%s.dsdl" % old else k): v.replace("mr." + old, "mr." + new) for k, v in f.items()}
         if docs:
             # the second type's documentation has indented lines, the documentation of the others is long enough to be wrapped
             f = {k: with_docs(v, *(("list", "listlong") if k.split("/")[1].split(".")[0] in ("A2", stem) else ("long", "mixed"))) for k, v in f.items()}
@@ -539,7 +615,13 @@ def model_scenario(sid, rec, lang, kind, builtin=False):
         if lang == "html":
             lang = "c"  # the html target has no identifier filter
     docs = bool(int(rec.get("docs", 0)))
+    pair = None
+    if int(rec.get("conf", 0)) and not stem:
+        pair = CONF_PAIRS[sid % len(CONF_PAIRS)]
+    shape["der"] = bool(pair)
     tname = {t: ("mr.%s.1.0" % stem if (stem and t == 2) else "mr.A%d.1.0" % t) for t in range(1, 5)}
+    if pair:
+        tname[1], tname[2] = "mr." + pair[0], "mr." + pair[1]
     if limit == 0 and (shape["lead"] or shape["trail"]) and lang in ("c", "py"):
         lang = {"c": "cpp", "py": "html"}[lang]  # c and py add LimitEmptyLines(1) of their own: "no limiter" does not exist there
     runs, expect = [], []
@@ -555,12 +637,14 @@ def model_scenario(sid, rec, lang, kind, builtin=False):
         for r in runs:
             if lang in ("cpp", "html") and limit == 0:
                 r["pps"], r["tap"] = {"limit": None}, (sid % 2 == 0)
-        return {"sid": sid, "kind": kind + "/builtin", "defsets": model_defsets(stem=stem, docs=docs), "rootns": "mr", "lookup": [], "tpl": {"id": "builtin"},
+        return {"sid": sid, "kind": kind + "/builtin", "defsets": model_defsets(stem=stem, docs=docs, pair=pair), "rootns": "mr", "lookup": [], "tpl": {"id": "builtin"},
                 "names": {}, "runs": runs}
     names = {"mr/A%d_1_0" % i: i for i in range(1, 5)}
     if stem:
         names["mr/%s_1_0" % stem] = 2
-    return {"sid": sid, "kind": kind, "defsets": model_defsets(stem=stem, docs=docs), "rootns": "mr", "lookup": [],
+    if pair:
+        names.update({"mr/" + conf_stem(pair[0]): 1, "mr/" + conf_stem(pair[1]): 2})
+    return {"sid": sid, "kind": kind, "defsets": model_defsets(stem=stem, docs=docs, pair=pair), "rootns": "mr", "lookup": [],
             "tpl": {"id": "mirror", "shape": shape, "docs": docs},
             "names": names, "tname": tname, "runs": runs, "expect": expect}
 
@@ -571,6 +655,13 @@ SHARED_WORDS = ["strobe", "total", "island", "memory", "atomic_x", "isle", "stro
                 "namespace", "plain", "speed"]
 FIELD_NAMES = ["f%d", "f%d", "f%d", "class%d", "double", "register", "isok%d", "memx%d", "typename", "namespace", "lambda", "str%d", "None%d", "del"]
 PRIMS = ["uint8", "uint16", "int32", "float32", "bool", "saturated uint7", "truncated uint12", "float64", "int3", "uint64", "float16"]
+
+
+RAND_CONFUSABLE = [  # (nested namespace, name, version) x 2
+    ("", "CfBar", (1, 0), "", "Cf_Bar", (1, 0)), ("", "Cv", (1, 10), "", "Cv", (11, 0)), ("", "Cv", (1, 10), "", "Cv1", (1, 0)),
+    ("cf_x", "Q", (1, 0), "cf", "x_Q", (1, 0)), ("", "Cf" + _LONGNAME + "A", (1, 0), "", "Cf" + _LONGNAME + "B", (1, 0)),
+    ("", "union", (1, 0), "", "_union", (1, 0)), ("", "try", (1, 0), "", "try_", (1, 0)), ("", "cf_y", (1, 0), "", "cf__y", (1, 0)),
+]
 
 
 class NsBuilder:
@@ -681,6 +772,15 @@ def rand_namespace(rng):
             obs["fields"] = obs["fields"] + [(rng.choice(PRIMS), spelled)]
         else:
             obs["pre"] = (obs.get("pre") + "\n" if obs.get("pre") else "") + "uint8 %s = %d" % (spelled, i + 1)
+    # confusable names: siblings that do not refer to each other and whose names collide under a name derivation; sometimes a
+    # third type refers to ONE of them (a dependency-closed subset then holds one without the other)
+    for ns1, n1, v1, ns2, n2, v2 in rng.sample(RAND_CONFUSABLE, rng.randint(0, 2)):
+        base = rng.choice(["", "n1", "k9"])
+        c1 = b.add(n1, v1, ns="/".join(x for x in (base, ns1) if x), kind="struct", fields=[(rng.choice(PRIMS), "v")])
+        c2 = b.add(n2, v2, ns="/".join(x for x in (base, ns2) if x), kind="struct", fields=[(rng.choice(PRIMS), "w")])
+        if rng.random() < 0.5:
+            obs = rng.choice(observers)
+            obs["fields"] = obs["fields"] + [(b.ref(rng.choice([c1, c2])), "cf_%s" % n1.lower().strip("_"))]
     for t in b.types:
         if rng.random() < 0.6:
             t["docs"] = (rng.choice(list(DOC_SHAPES)), rng.choice([None] + list(DOC_SHAPES)))
@@ -929,6 +1029,45 @@ def canonical_doc_scenarios(sid0):
     return res
 
 
+def canonical_derived_scenarios(sid0):
+    """siblings that do not refer to each other and whose names collide under a name derivation (CONFUSABLE, a service next to
+    types called like its request / response): whole namespace in both orders / reused LanguageContext / reused generator /
+    every confusable type alone with a fresh and with a reused context / the dependency closures of two users which each hold
+    one half of every group, both orders; built-in templates of every target and the mirror template showing the target's own
+    derived names.  A registry of derived names that outlives a file or a run shows as a digest difference."""
+    defs, members = {}, []
+    for g in CONFUSABLE:
+        for i, n in enumerate(g):
+            defs["vr/%s.dsdl" % conf_path(n)] = "%s m%d\n@sealed\n" % (PRIMS[i], i)
+            members.append("vr." + n)
+    defs["vr/Svc.1.0.dsdl"] = "uint8 q\n@sealed\n---\nuint16 r\n@sealed\n"
+    defs["vr/Svc_Request.1.0.dsdl"] = "uint8 q\n@sealed\n"
+    defs["vr/Svc_Response.1.0.dsdl"] = "uint16 r\n@sealed\n"
+    members += ["vr.Svc.1.0", "vr.Svc_Request.1.0", "vr.Svc_Response.1.0"]
+    defs["vr/Other.1.0.dsdl"] = "uint32 c\n@sealed\n"
+    users = {}
+    for u, k in (("UseA", 0), ("UseB", 1)):
+        refs = ["vr." + g[k] for g in CONFUSABLE] + ["vr.Svc_Request.1.0" if k else "vr.Other.1.0"]
+        defs["vr/%s.1.0.dsdl" % u] = "".join("%s f%d\n" % (r, i) for i, r in enumerate(refs)) + "@sealed\n"
+        users[u] = refs + ["vr.%s.1.0" % u]
+    everything = sorted(members + ["vr.Other.1.0", "vr.UseA.1.0", "vr.UseB.1.0"])
+    res = []
+    for lang in LANGS:
+        for tpl in ({"id": "builtin"},
+                    {"id": "mirror", "shape": {"lead": 0, "trail": 0, "lit": 0, "dyn": 0, "mod": False, "inc": True, "nam": False, "der": True}}):
+            base = {"lang": lang, "langopts": None, "pps": {"limit": None}, "tap": True, "omit": False, "embed": False, "d": 0, "gen": "fresh", "lctx": "fresh"}
+            runs = [dict(base, types=None), dict(base, types=list(reversed(everything))), dict(base, types=everything, lctx="same")]
+            runs.append(dict(runs[-1], gen="same"))
+            for i, m in enumerate(members):
+                # alone in a fresh context; every second one then again behind the context that has just served its sibling
+                runs.append(dict(base, types=[m], lctx="same" if i % 2 else "fresh"))
+            runs += [dict(base, types=users["UseA"]), dict(base, types=list(reversed(users["UseB"])), lctx="same"),
+                     dict(base, types=list(reversed(users["UseA"])), lctx="same"), dict(base, types=users["UseB"]),
+                     dict(base, types=list(reversed(members))), dict(base, types=None, lctx="same")]
+            res.append({"sid": sid0 + len(res), "kind": "canonical", "defsets": [defs], "rootns": "vr", "lookup": [], "tpl": tpl, "names": {}, "runs": runs})
+    return res
+
+
 # =====================================================================================================================
 # Part 3 - driver, judgement
 # =====================================================================================================================
@@ -1015,6 +1154,8 @@ def diff_classes(e1, e2):
             res.append("identifier-stropping")
         if b1.get("C") != b2.get("C"):
             res.append("doc-comments")
+        if b1.get("G") != b2.get("G"):
+            res.append("derived-name")
         if b1.get("T") != b2.get("T") or b1.get("?") != b2.get("?") or not res:
             res.append("other")
         return res
@@ -1027,6 +1168,8 @@ def diff_classes(e1, e2):
             res.append("identifier-stropping")
         elif h1.get("o3") == h2.get("o3"):
             res += ["unique-names", "identifier-stropping"]
+        elif h1.get("o4") is not None and h1.get("o4") == h2.get("o4"):
+            res.append("derived-name")
         else:
             res.append("other")
     return res or ["other"]
@@ -1147,12 +1290,12 @@ def compare_expected(ctx, sc, evs, rej, perturb=None):
         for fi, ((t, out), ev) in enumerate(zip(exp, lst)):
             tname = sc.get("tname") or {}
             tn = lambda i: tname.get(i, tname.get(str(i), "mr.A%d.1.0" % i))  # noqa: E731 (keys are strings after a JSON round trip)
-            # how a name is stropped is the target configuration's business (C09): the I-comparison leaves N lines out
-            want = [list(x) for x in out if (keep_inc or x[0] not in ("I", "S")) and x[0] not in ("N", "C")]
+            # how a name is stropped / derived is the target configuration's business (C09): the I-comparison leaves N and G lines out
+            want = [list(x) for x in out if (keep_inc or x[0] not in ("I", "S")) and x[0] not in ("N", "C", "G")]
             want = [["T", tn(x[1])] if x[0] == "T" else x for x in want]
             if perturb is not None and perturb == (ri, fi):
                 want = want + [["E"]]
-            got = [x for x in (ev.get("toks") or []) if x[0] not in ("N", "C")]
+            got = [x for x in (ev.get("toks") or []) if x[0] not in ("N", "C", "G")]
             if ev["type_name"] != tn(t) or got != want:
                 mism.append((ri, ev, "model expects %s, code wrote %s" % (json.dumps(want), json.dumps(got))))
     return mism
@@ -1186,6 +1329,7 @@ def run(ctx):
     run_model(ctx, ctx.pick("GenSiblings_depsq", "GenSiblings_deps"), "NTypes=%d MaxRuns=3 defsets{1,2,3} omit{F,T}" % ctx.pick(3, 4))
     run_model(ctx, "GenSiblings_docs", consts % 3 + " documentation: type 2 writes to / types 1,3 show the state of a comment filter")
     run_model(ctx, "GenSiblings_names", consts % 3 + " shared spelling of a sibling's path token and a field; words{path-clean/any-reserved,plain,keyword}")
+    run_model(ctx, "GenSiblings_derived", consts % 3 + " types 1 and 2 collide under a name derivation; a registry of derived names lives on the Language object")
     if not ctx.quick:
         run_model(ctx, "GenSiblings", "NTypes=3 MaxRuns=2 mixed shapes(32) limit{none,1} defsets{1,2}")
 
@@ -1194,7 +1338,8 @@ def run(ctx):
     scen = {}
     neg_names = {"neg_limiter": "ResetLimiter=FALSE", "neg_depkey": "IdentityDepKey=FALSE", "neg_fold": "VolatileUniq=FALSE",
                  "neg_module": "FreshModule=FALSE", "neg_strop": "FullStropKey=FALSE (stropping memo keyed by spelling only)",
-                 "neg_filter": "PureFilters=FALSE (a template filter keeps state between files)"}
+                 "neg_filter": "PureFilters=FALSE (a template filter keeps state between files)",
+                 "neg_registry": "PureDerivedNames=FALSE (a first-come registry of derived names gives the later of two colliding types an ordinal)"}
     ctx.cov["model_negative_controls"] = {}
     pred = {}
     for cfg, flag in neg_names.items():
@@ -1210,9 +1355,9 @@ def run(ctx):
             scen[sid] = sc
             pred[sid] = cfg
             sid += 1
-            if i % 3 == 0 and cfg in ("neg_depkey", "neg_limiter", "neg_strop", "neg_filter"):
+            if (i % 3 == 0 and cfg in ("neg_depkey", "neg_limiter", "neg_strop", "neg_filter")) or cfg == "neg_registry":
                 blang = {"neg_limiter": LANGS, "neg_strop": ["c", "c", "py", "cpp"], "neg_filter": ["cpp", "cpp", "html", "cpp", "c", "py"]}.get(cfg, ["c", "cpp"])
-                scen[sid] = model_scenario(sid, h, blang[(i // 3) % len(blang)], "predicted:" + cfg, builtin=True)
+                scen[sid] = model_scenario(sid, h, (LANGS[i % 4] if cfg == "neg_registry" else blang[(i // 3) % len(blang)]), "predicted:" + cfg, builtin=True)
                 sid += 1
     n_pred = sid
 
@@ -1248,6 +1393,9 @@ def run(ctx):
         scen[sc["sid"]] = sc
         sid += 1
     for sc in canonical_doc_scenarios(sid):
+        scen[sc["sid"]] = sc
+        sid += 1
+    for sc in canonical_derived_scenarios(sid):
         scen[sc["sid"]] = sc
         sid += 1
     fixed = random.Random(20260926)
